@@ -393,6 +393,11 @@ func (e *FakePreSharedKeyExtension) Write(b []byte) (n int, err error) {
 	fullLen := len(b)
 	s := cryptobyte.String(b)
 
+	// What is decoded replaces what the object held (as every other Write does),
+	// and only once the whole body has been read.
+	var identities []PskIdentity
+	var binders [][]byte
+
 	var identitiesLength uint16
 	if !s.ReadUint16(&identitiesLength) {
 		return 0, errors.New("tls: invalid PSK extension")
@@ -422,7 +427,7 @@ func (e *FakePreSharedKeyExtension) Write(b []byte) (n int, err error) {
 			return 0, errors.New("tls: invalid PSK extension")
 		}
 
-		e.Identities = append(e.Identities, PskIdentity{
+		identities = append(identities, PskIdentity{
 			Label:               identity,
 			ObfuscatedTicketAge: obfuscatedTicketAge,
 		})
@@ -452,11 +457,13 @@ func (e *FakePreSharedKeyExtension) Write(b []byte) (n int, err error) {
 			return 0, errors.New("tls: invalid PSK extension")
 		}
 
-		e.Binders = append(e.Binders, binder)
+		binders = append(binders, binder)
 
 		bindersLength -= uint16(binderLength)
 	}
 
+	e.Identities = identities
+	e.Binders = binders
 	return fullLen, nil
 }
 
